@@ -79,11 +79,81 @@ func TestVerifC04(t *testing.T) {
 					// advertisement must go to 0, not wrap (beyond "set before traffic starts", checked anyway)
 					p.name, p.shrinkWnd = "stalled-reader-shrinks-window", true
 				}
+				if i%12 == 11 || i%12 == 8 {
+					// the stalled application ENLARGES its window while in-order segments wait in rcv_buf behind
+					// a full queue, on a duplicating path: occupancy stays within one window each
+					p.name, p.growWnd, p.dup, p.reorder = "stalled-reader-grows-window", true, 35, 20
+				}
 			}
 			return p
 		},
 		nontriv: func(info coreCaseInfo, s *coreSim) bool { return info.zeroWnd || info.forged || info.retrans },
+		directed: func(t *testing.T, lg *vlog, rep *vreport, rng *vrng) int {
+			n := 4
+			if vThorough() {
+				n = 40
+			}
+			for i := 0; i < n; i++ {
+				runParkedThenGrownCase(lg, rep, rng)
+			}
+			return n
+		},
 	})
+}
+
+// runParkedThenGrownCase: the reader is stalled behind a full delivery queue, the next in-order
+// segment waits in the out-of-order buffer; the application enlarges the receive window, the path
+// duplicates that very segment, and traffic goes on out of order.  One window of in-order plus one
+// window of out-of-order segments is all the receiver ever holds.
+func runParkedThenGrownCase(lg *vlog, rep *vreport, rng *vrng) {
+	cfg := genCoreCfg(rng, defaultProfile())
+	cfg.Stream = 0
+	w := rng.pick(2, 4, 8)
+	cfg.Rcv[1] = w
+	s := newCoreSim(cfg, lg, rep)
+	k := s.k[1]
+	push := func(sn uint32) {
+		seg := make([]byte, IKCP_OVERHEAD+1)
+		binary.LittleEndian.PutUint32(seg, cfg.Conv)
+		seg[4], seg[5] = IKCP_CMD_PUSH, 0
+		binary.LittleEndian.PutUint16(seg[6:], 32)
+		binary.LittleEndian.PutUint32(seg[8:], s.now)
+		binary.LittleEndian.PutUint32(seg[12:], sn)
+		binary.LittleEndian.PutUint32(seg[16:], k.snd_una)
+		binary.LittleEndian.PutUint32(seg[20:], 1)
+		seg[24] = byte(sn)
+		s.Input(1, seg, true, false)
+		s.pend[1] = nil
+	}
+	base := k.rcv_nxt
+	for i := 0; i <= w && !s.dead; i++ { // w segments fill the queue, the next one is parked behind it
+		push(base + uint32(i))
+	}
+	s.WndSize(1, 0, 2*w+rng.intn(3))
+	if !s.dead {
+		push(base + uint32(w)) // the path duplicates the parked segment
+	}
+	rep.Distribution["profile:parked-then-window-grown"]++
+	rep.Nontrivial++
+	for round := 0; round < 60 && !s.dead; round++ {
+		nx := k.rcv_nxt
+		for j := 2; j <= 1+rng.intn(3)+1; j++ { // out of order first ...
+			push(nx + uint32(j))
+		}
+		push(nx + 1)
+		push(nx) // ... then the in-order ones
+		if round%2 == 0 {
+			s.Recv(1, 70000)
+		}
+		s.setNow(s.now + 10)
+		s.Flush(1, true)
+		s.pend[1] = nil
+	}
+	if !s.dead {
+		s.end()
+	}
+	s.mergeStats()
+	rep.Steps += len(s.ops)
 }
 
 // C05 - arbitrary bytes into the raw core: no panic, bounded state.
